@@ -147,6 +147,17 @@ class MonoTimer(Timer):
         self.start(duration=duration, start=start)
 
 
+    def start(self, duration=None, start=None):
+        """Starts Timer of duration secs at start time start secs.
+            If duration not provided then uses current duration
+            If start not provided then starts at current time.time() and
+            measures retrograde from then.
+        """
+        if start is None:  # starting now so last measured time is now
+            start = self._last = time.time()
+        return super(MonoTimer, self).start(duration=duration, start=start)
+
+
     @property
     def elapsed(self):
         """elapsed time property getter,
